@@ -133,6 +133,16 @@ func init() {
 		}
 		return nil
 	}
+	intrinsics[H("vGuardAny")] = func(in *Interp, fr *frame, args []Value) Value {
+		// vGuardAny(&field, &mutex): every access (reads and atomic updates) needs the mutex held in read or write mode
+		f, _ := args[0].(Iface).V.(*Value)
+		m, _ := args[1].(Iface).V.(*Value)
+		if f != nil && m != nil {
+			in.ghost.guards[f] = m
+			in.ghost.guardsAny[f] = true
+		}
+		return nil
+	}
 	intrinsics[H("vGuardMap")] = func(in *Interp, fr *frame, args []Value) Value {
 		m, _ := args[0].(Iface).V.(*Map)
 		mu, _ := args[1].(Iface).V.(*Value)
